@@ -2,6 +2,7 @@
 # usage: tools/commit.sh "<message>"  - regenerate MANIFEST/DESIGN, run every
 # check on the unchanged tree, and commit /verif only if all of them pass.
 cd /verif
+bin/gowp symbols > symbols.json.new && mv symbols.json.new symbols.json || { echo "symbols failed"; exit 2; }
 python3 mkmanifest.py >/dev/null && python3 mkdesign.py >/dev/null || { echo "generation failed"; exit 2; }
 ./runall.sh > work/runall.log 2>&1; rc=$?
 if [ $rc -ne 0 ] || grep -q VIOLATION work/runall.log; then
